@@ -771,3 +771,104 @@ M("C06-task-loop-returns", "C06", "R6.3", PJ,
                 return
             if not task.auto_task:
                 if task.need_facility:""")
+
+# ---------------------------------------------------------------------------------------- C12
+M("C12-drop-per-call-reset", "C12", "R12.1", WF,
+  """        for task in self.task_list:
+            task.lst = -1.0
+            task.lft = -1.0
+""", "")
+M("C12-relaxation-le", "C12", "R12.2", WF,
+  """                    if est >= pre_est:
+                        next_task.est = est
+                        next_task.eft = eft""",
+  """                    if est <= pre_est:
+                        next_task.est = est
+                        next_task.eft = eft""")
+M("C12-cpl-min", "C12", "R12.2", WF,
+  """        self.critical_path_length = max(output_task_set, key=lambda task: task.eft).eft""",
+  """        self.critical_path_length = min(self.task_list, key=lambda task: task.eft).eft""")
+M("C12-lst-plus", "C12", "R12.2", WF,
+  """            task.lft = self.critical_path_length
+            task.lst = task.lft - task.remaining_work_amount""",
+  """            task.lft = self.critical_path_length
+            task.lst = task.lft + task.remaining_work_amount""")
+M("C12-skip-per-step-update", "C12", "R12.3", PJ,
+  """        self.workflow.update_PERT_data(self.time)
+""", "")
+M("C12-fs-uses-default-work", "C12", "R12.2", WF,
+  """                    if dependency == BaseTaskDependency.FS:
+                        est = input_task.est + input_task.remaining_work_amount
+                        eft = est + next_task.remaining_work_amount""",
+  """                    if dependency == BaseTaskDependency.FS:
+                        est = input_task.est + input_task.default_work_amount
+                        eft = est + next_task.remaining_work_amount""")
+M("C12-heads-start-at-zero", "C12", "R12.2", WF,
+  """            task.est = time
+            if len(task.input_task_list) == 0:
+                task.eft = time + task.remaining_work_amount""",
+  """            task.est = 0
+            if len(task.input_task_list) == 0:
+                task.eft = task.remaining_work_amount""")
+M("C12-reset-only-tails", "C12", "R12.1", WF,
+  """        for task in self.task_list:
+            task.lst = -1.0
+            task.lft = -1.0
+""",
+  """        for task in self.task_list:
+            if len(task.output_task_list) == 0:
+                task.lst = -1.0
+                task.lft = -1.0
+""")
+M("C12-backward-uses-lft", "C12", "R12.2", WF,
+  """                    if dependency == BaseTaskDependency.FS:
+                        lft = output_task.lst
+                        lst = lft - prev_task.remaining_work_amount""",
+  """                    if dependency == BaseTaskDependency.FS:
+                        lft = output_task.lft
+                        lst = lft - prev_task.remaining_work_amount""")
+M("C12-no-pert-at-init", "C12", "R12.3", WF,
+  """            self.critical_path_length = 0.0
+            self.update_PERT_data(0)""",
+  """            self.critical_path_length = 0.0""")
+
+# ---------------------------------------------------------------------------------------- C15
+M("C15-unconditional-store-in-initialize", "C15", "R15.1", WK,
+  """        if state_info:
+            self.state = BaseWorkerState.FREE
+            self.assigned_task_list = []""",
+  """        self.assigned_task_list = []
+        if state_info:
+            self.state = BaseWorkerState.FREE""")
+M("C15-reset-time-every-simulate", "C15", "R15.2", PJ,
+  """        self.simulation_mode = SimulationMode.FORWARD
+        self.absence_time_list = list(absence_time_list)""",
+  """        self.simulation_mode = SimulationMode.FORWARD
+        self.time = 0
+        self.absence_time_list = list(absence_time_list)""")
+M("C15-stop-exporting-remaining-work", "C15", "R15.4", TK,
+  """remaining_work_amount=self.remaining_work_amount, remaining_work_amount_record_list=""",
+  """remaining_work_amount_record_list=""")
+M("C15-fixpoint-removed", "C15", "R15.3", WF,
+  """            if not newly_finished:
+                break""",
+  """            break""")
+M("C15-pert-on-noop-initialize", "C15", "R15.1", WF,
+  """        if state_info:
+            self.critical_path_length = 0.0
+            self.update_PERT_data(0)
+            self.check_state(-1, BaseTaskState.READY)""",
+  """        if state_info:
+            self.critical_path_length = 0.0
+            self.update_PERT_data(0)
+        self.check_state(-1, BaseTaskState.READY)""")
+M("C15-removal-unguarded", "C15", "R15.3", PD,
+  """            if all_finished_flag and c.placed_workplace is not None:""",
+  """            if all_finished_flag:""")
+M("C15-state-not-restored", "C15", "R15.4", OG,
+  """state=BaseWorkerState(w['state']), state_record_list=[BaseWorkerState""",
+  """state_record_list=[BaseWorkerState""")
+M("C15-new-live-attribute-unsaved", "C15", "R15.4", TK,
+  """            self.remaining_work_amount = self.remaining_work_amount - work_amount_progress""",
+  """            self.remaining_work_amount = self.remaining_work_amount - work_amount_progress
+            self.last_progress = work_amount_progress""")
